@@ -376,7 +376,7 @@ type TokSpec struct {
 	Exp      *int // nil: no expiration
 	Nbf      int
 	Nonce    string
-	Tamper   string // "", "aud", "cap", "exp", "iss", "sig", "nocaps", "emptyiss", "shortsig"
+	Tamper   string // "" or one of the field alterations of tamper()
 	TamperTo *Prin
 	// extra dangling proof links (no block anywhere)
 	Dangling int
@@ -522,6 +522,80 @@ func tamper(d delegation.Delegation, sp *TokSpec) (delegation.Delegation, error)
 		m.Iss = []byte{}
 	case "shortsig":
 		m.S = m.S[:3]
+	case "emptyaud":
+		m.Aud = []byte{}
+	case "iss1byte":
+		m.Iss = []byte{0xed}
+	case "isstrunc":
+		m.Iss = m.Iss[:5]
+	case "issbad":
+		m.Iss = []byte{0xff, 0xff, 0xff, 0xff, 0xff, 0xff, 0xff, 0xff, 0xff, 0xff, 0x01}
+	case "isshuge":
+		b := make([]byte, 2048)
+		copy(b, m.Iss)
+		m.Iss = b
+	case "isscorekey":
+		m.Iss = append([]byte{0x9d, 0x1a}, []byte("key:z6MkffDZCkCTWreg8868fG1FGFogcJj5X6PY93pPcWDn9bob")...)
+	case "isscoreempty":
+		m.Iss = []byte{0x9d, 0x1a}
+	case "sigempty":
+		m.S = []byte{}
+	case "sigcodeonly":
+		m.S = []byte{0xed, 0xa1, 0x03}
+	case "sigshort":
+		m.S = m.S[:10]
+	case "sighugesize":
+		m.S = append([]byte{0xed, 0xa1, 0x03}, append(varint.ToUvarint(1<<62), 1, 2, 3, 4)...)
+	case "sigbadcode":
+		m.S = append([]byte{0x01}, m.S[3:]...)
+	case "sigbadvarint":
+		m.S = []byte{0xff, 0xff, 0xff, 0xff, 0xff, 0xff, 0xff, 0xff, 0xff, 0xff, 0xff, 0x01}
+	case "capempty":
+		m.Att = []udm.CapabilityModel{{With: "", Can: "", Nb: m.Att[0].Nb}}
+	case "nbnull":
+		att := append([]udm.CapabilityModel{}, m.Att...)
+		att[0].Nb = datamodel.Null
+		m.Att = att
+	case "nbstring":
+		att := append([]udm.CapabilityModel{}, m.Att...)
+		att[0].Nb = basicnode.NewString("x")
+		m.Att = att
+	case "manycaps":
+		var att []udm.CapabilityModel
+		for i := 0; i < 300; i++ {
+			att = append(att, m.Att[0])
+		}
+		m.Att = att
+	case "prfdangling":
+		m.Prf = append(append([]ipld.Link{}, m.Prf...), fakeLink(424242))
+	case "prfmany":
+		prf := append([]ipld.Link{}, m.Prf...)
+		for i := 0; i < 200; i++ {
+			prf = append(prf, fakeLink(500000+i))
+		}
+		m.Prf = prf
+	case "expneg":
+		e := -1
+		m.Exp = &e
+	case "expzero":
+		e := 0
+		m.Exp = &e
+	case "expmax":
+		e := 1 << 62
+		m.Exp = &e
+	case "nbfmax":
+		e := 1 << 62
+		m.Nbf = &e
+	case "nbfneg":
+		e := -5
+		m.Nbf = &e
+	case "verweird":
+		m.V = "9.9.9"
+	case "verempty":
+		m.V = ""
+	case "nncempty":
+		e := ""
+		m.Nnc = &e
 	default:
 		return nil, fmt.Errorf("unknown tamper %s", sp.Tamper)
 	}
